@@ -200,17 +200,18 @@ def run_expression(col, tier):
     def w_pp(qq, pp, **kw):
         return npmodel.einsum("iqc,kqc,qc->qc", np.asarray(qq), np.asarray(pp), Cpp)
 
-    for parallel in (False, True):
-        def chk_mixed(parallel=parallel):
+    for parallel, sym_ in itertools.product((False, True), repeat=2):
+        def chk_mixed(parallel=parallel, sym_=sym_):
             form = it.call(it.call(Form, [], dict(v=fcm, u=fcm)), [[w_uu, w_up, w_pp]], {})
-            K = micro.dense(it.call_method(form, "assemble", [], dict(v=fcm, u=fcm, parallel=parallel)))
+            K = micro.dense(it.call_method(form, "assemble", [], dict(v=fcm, u=fcm, parallel=parallel, sym=sym_)))
             Kuu = ref_bilinear(ra, ra, 2, 2, lambda i, J, k, L, q, c: A2[i, J, k, L, q, c], True, True)
             Kup = ref_bilinear(ra, rb, 2, 1, lambda i, J, k, L, q, c: Bup[i, J, q, c], True, False)
             Kpp = ref_bilinear(rb, rb, 1, 1, lambda i, J, k, L, q, c: Cpp[q, c], False, False)
             want = np.concatenate([np.concatenate([Kuu, Kup], axis=1), np.concatenate([Kup.T, Kpp], axis=1)], axis=0)
             bad = diff_dense(K, want)
             return not bad, "assembly/expression/_mixed.py BilinearFormExpression: %s" % "; ".join(bad[:4])
-        col.check("C02.O9", "Form mixed (u, p) blocks, parallel=%s" % parallel, "the list of upper-triangle weak forms assembles to the symmetric block matrix of the equivalent array forms", chk_mixed)
+        col.check("C02.O9", "Form mixed (u, p) blocks, parallel=%s sym=%s" % (parallel, sym_),
+                  "the list of upper-triangle weak forms assembles to the symmetric block matrix of the equivalent array forms (sym=True exploits the symmetry of the diagonal blocks; an off-diagonal block pairs two different fields and has no such symmetry)", chk_mixed)
 
     # ---- update protocol: a form created on one container and assembled on another (or after a region reload) uses the fields it is given
     ra2, rb2 = _regions("n")
@@ -226,6 +227,16 @@ def run_expression(col, tier):
         bad = diff_dense(K, want)
         return not bad, "assembly/expression/_expression.py FormExpression._init_or_update_forms: %s" % "; ".join(bad[:3])
     col.check("C02.O9", "Form re-assembled on other fields", "assemble(v=, u=) on fields other than those the form was created with uses the bases, volumes and indices of the fields it is given", chk_update)
+
+    def chk_other_trial():
+        # test and trial functions taken from two different containers (e.g. undeformed and deformed region): a(v, u), not a(v, v)
+        A4 = _A("A4", nq, nc, False)
+        form = it.call(it.call(Form, [], dict(v=fc, u=fc2)), [[weak_of(A4)]], {})
+        K = micro.dense(it.call_method(form, "assemble", [], dict(v=fc, u=fc2)))
+        want = ref_bilinear(ra, ra2, 2, 2, lambda i, J, k, L, q, c: A4[i, J, k, L, q, c], True, True)
+        bad = diff_dense(K, want)
+        return not bad, "assembly/expression/_expression.py FormExpression._init_or_update_forms: %s" % "; ".join(bad[:3])
+    col.check("C02.O9", "Form with a trial container other than the test container", "rows come from the test fields' basis and indices, columns from the trial fields' (volumes: the test region's)", chk_other_trial)
 
     def chk_reload():
         # the same container, but its region was reloaded in place (mesh moved): new basis gradients and volumes
